@@ -1,4 +1,538 @@
-import DFV.Model.C18
+import DFV.Lemmas.C18Values
+import DFV.Lemmas.C18Cbrt
+import DFV.Lemmas.C18State
+import DFV.Lemmas.C18Examples
+/-!
+# C18 — arbitrary rotations rotate the vectors and resample the positions consistently
+
+Property theorems about the executable model `DFV/Model/C18.lean` of `FieldRotator`
+(helper lemmas live in `DFV/Lemmas/C18*.lean`).  Rotations are rational 3×3 matrices;
+all statements hold for every field, every mesh size, every matrix / history / target
+cell, in exact rational arithmetic.
+-/
 namespace DFV.C18
-theorem placeholder_partial : padIdx 3 0 = 0 := by decide
+open DFV
+
+/-! ## rotations -/
+
+/-- Every non-zero rational quaternion yields a proper rotation with rational entries: the
+exact regime of the correspondence run is dense in SO(3). -/
+theorem quat_is_rotation (w x y z : Rat) (h : w*w + x*x + y*y + z*z ≠ 0) : (M3.ofQuat w x y z).IsRot :=
+  M3.ofQuat_isRot w x y z h
+
+example : (M3.ofQuat 2 1 (-2) 3).IsRot := quat_is_rotation _ _ _ _ (by norm_num)
+
+/-- For a rotation the transpose (what the model uses for scipy's `Rotation.inv`) is the
+two-sided inverse, and scalar products (lengths, angles) are preserved. -/
+theorem transpose_is_inverse (Q : M3) (h : Q.IsRot) (u v : V3) :
+    Q.apply (Q.tr.apply v) = v ∧ Q.tr.apply (Q.apply v) = v ∧ (Q.apply u).dot (Q.apply v) = u.dot v :=
+  ⟨h.apply_tr_apply v, h.tr_apply_apply v, h.dot_apply u v⟩
+
+/-! ## the bounding box (`_calculate_new_region`) -/
+
+/-- `centre + cornerRel` enumerates the eight corners of the original region. -/
+theorem corner_of_region (m : Mesh) (s0 s1 s2 : Bool) (a : Nat) (ha : a < 3) :
+    centreAt m a + (cornerRel m s0 s1 s2).get a
+      = if (match a with | 0 => s0 | 1 => s1 | _ => s2) then m.region.hi a else m.region.lo a := by
+  have : a = 0 ∨ a = 1 ∨ a = 2 := by omega
+  rcases this with e | e | e <;> subst e <;>
+    simp only [cornerRel, V3.get, centreAt, Region.edge, sgn] <;> split <;> ring
+
+/-- **bbox.** The region of the rotated field has the centre of the original region, contains
+the eight corners of the original region rotated about that centre, and each of its six
+faces contains one of them — it is the axis-aligned bounding box of the rotated region
+(for any matrix, rotation or not). -/
+theorem bbox (f : Fld) (R : M3) (reg : Region) (h : newRegion f R = .ok reg) :
+    (∀ a, a < 3 → (reg.lo a + reg.hi a) / 2 = centreAt f.mesh a) ∧
+    (∀ s0 s1 s2 a, a < 3 →
+      reg.lo a ≤ centreAt f.mesh a + (R.apply (cornerRel f.mesh s0 s1 s2)).get a ∧
+      centreAt f.mesh a + (R.apply (cornerRel f.mesh s0 s1 s2)).get a ≤ reg.hi a) ∧
+    (∀ a, a < 3 → ∃ s0 s1 s2, centreAt f.mesh a + (R.apply (cornerRel f.mesh s0 s1 s2)).get a = reg.hi a) ∧
+    (∀ a, a < 3 → ∃ s0 s1 s2, centreAt f.mesh a + (R.apply (cornerRel f.mesh s0 s1 s2)).get a = reg.lo a) := by
+  refine ⟨?_, ?_, ?_, ?_⟩
+  · intro a ha
+    rw [newRegion_lo f R reg h a ha, newRegion_hi f R reg h a ha]
+    unfold boxLo boxHi; ring
+  · intro s0 s1 s2 a ha
+    rw [newRegion_lo f R reg h a ha, newRegion_hi f R reg h a ha]
+    have hb := corner_bound R f.mesh s0 s1 s2 a
+    rw [abs_le] at hb
+    unfold boxLo boxHi
+    constructor <;> linarith [hb.1, hb.2]
+  · intro a ha
+    refine ⟨decide (0 ≤ R.e a 0 * f.mesh.region.edge 0), decide (0 ≤ R.e a 1 * f.mesh.region.edge 1),
+      decide (0 ≤ R.e a 2 * f.mesh.region.edge 2), ?_⟩
+    rw [newRegion_hi f R reg h a ha, corner_attains R f.mesh a]
+    rfl
+  · intro a ha
+    refine ⟨!decide (0 ≤ R.e a 0 * f.mesh.region.edge 0), !decide (0 ≤ R.e a 1 * f.mesh.region.edge 1),
+      !decide (0 ≤ R.e a 2 * f.mesh.region.edge 2), ?_⟩
+    rw [newRegion_lo f R reg h a ha, corner_attains_neg R f.mesh a]
+    unfold boxLo; ring
+
+/-- the bounding box has default axis names and units (the code builds a fresh `Region`) -/
+theorem bbox_metadata (f : Fld) (R : M3) (reg : Region) (h : newRegion f R = .ok reg) :
+    reg.ndim = 3 ∧ reg.dims = ["x", "y", "z"] ∧ reg.units = ["m", "m", "m"] := by
+  obtain ⟨h1, _, h3, h4, _⟩ := newRegion_ok_inv f R reg h
+  exact ⟨by unfold Region.ndim; rw [h1]; simp, h3, h4⟩
+
+/-- non-vacuity: the 3-4-5 rotation about z of the box [0,4]×[0,4]×[0,2] has the bounding box
+[−4/5, 24/5]² × [0, 2] -/
+example : exR.IsRot ∧ newRegion exF exR = .ok exReg := ⟨by decide +kernel, exNewRegion⟩
+
+/-! ## multilinear interpolation (`RegularGridInterpolator`, linear, fill value 0) -/
+
+/-- **trilinear_affine.** On any strictly increasing node grids, interpolating samples of an
+affine function of the node coordinates returns that function at every point inside the
+grid. -/
+theorem trilinear_affine (g0 g1 g2 : Nat → Rat) (m0 m1 m2 : Nat)
+    (hs0 : ∀ j, j ≤ m0 → g0 j < g0 (j + 1)) (hs1 : ∀ j, j ≤ m1 → g1 j < g1 (j + 1))
+    (hs2 : ∀ j, j ≤ m2 → g2 j < g2 (j + 1))
+    (α β0 β1 β2 : Rat) (V : Nat → Nat → Nat → Rat)
+    (hV : ∀ i j k, i ≤ m0 + 1 → j ≤ m1 + 1 → k ≤ m2 + 1 → V i j k = α + β0 * g0 i + β1 * g1 j + β2 * g2 k)
+    (p : V3) (h0 : inBounds g0 m0 p.x = true) (h1 : inBounds g1 m1 p.y = true) (h2 : inBounds g2 m2 p.z = true) :
+    trilin g0 g1 g2 m0 m1 m2 V p = α + β0 * p.x + β1 * p.y + β2 * p.z := by
+  unfold trilin
+  rw [locate_some _ _ _ _ _ _ p h0 h1 h2]
+  simp only [interpAt, frac]
+  have l0 := findIdx_le g0 p.x m0
+  have l1 := findIdx_le g1 p.y m1
+  have l2 := findIdx_le g2 p.z m2
+  apply sum8_affine
+  · have := hs0 _ l0; intro e; linarith
+  · have := hs1 _ l1; intro e; linarith
+  · have := hs2 _ l2; intro e; linarith
+  · intro e0 e1 e2 he0 he1 he2
+    rw [hV _ _ _ (by omega) (by omega) (by omega)]
+    have c0 : e0 = 0 ∨ e0 = 1 := by omega
+    have c1 : e1 = 0 ∨ e1 = 1 := by omega
+    have c2 : e2 = 0 ∨ e2 = 1 := by omega
+    rcases c0 with c0 | c0 <;> rcases c1 with c1 | c1 <;> rcases c2 with c2 | c2 <;> subst c0 <;> subst c1 <;>
+      subst c2 <;> simp
+
+/-- The eight weights sum to one: constant data is reproduced everywhere inside the grid. -/
+theorem trilinear_const (g0 g1 g2 : Nat → Rat) (m0 m1 m2 : Nat) (c : Rat) (p : V3)
+    (h0 : inBounds g0 m0 p.x = true) (h1 : inBounds g1 m1 p.y = true) (h2 : inBounds g2 m2 p.z = true) :
+    trilin g0 g1 g2 m0 m1 m2 (fun _ _ _ => c) p = c := by
+  unfold trilin
+  rw [locate_some _ _ _ _ _ _ p h0 h1 h2]
+  simp only [interpAt]
+  exact sum8_const _ _ _ c
+
+/-- The interpolant is linear in the data (at every point, inside or outside). -/
+theorem trilinear_linear (g0 g1 g2 : Nat → Rat) (m0 m1 m2 : Nat) (a b : Rat) (V W : Nat → Nat → Nat → Rat) (p : V3) :
+    trilin g0 g1 g2 m0 m1 m2 (fun i j k => a * V i j k + b * W i j k) p
+      = a * trilin g0 g1 g2 m0 m1 m2 V p + b * trilin g0 g1 g2 m0 m1 m2 W p := by
+  unfold trilin
+  exact interpAt_linear a b V W _
+
+/-- A point outside the node grid on any axis gets the fill value 0. -/
+theorem trilinear_outside_zero (g0 g1 g2 : Nat → Rat) (m0 m1 m2 : Nat) (V : Nat → Nat → Nat → Rat) (p : V3)
+    (h : p.x < g0 0 ∨ g0 (m0 + 1) < p.x ∨ p.y < g1 0 ∨ g1 (m1 + 1) < p.y ∨ p.z < g2 0 ∨ g2 (m2 + 1) < p.z) :
+    trilin g0 g1 g2 m0 m1 m2 V p = 0 := by
+  unfold trilin
+  rw [locate_none]
+  · rfl
+  · unfold inBounds
+    rcases h with h | h | h | h | h | h
+    · left; simp [not_le.mpr h]
+    · left; simp [not_le.mpr h]
+    · right; left; simp [not_le.mpr h]
+    · right; left; simp [not_le.mpr h]
+    · right; right; simp [not_le.mpr h]
+    · right; right; simp [not_le.mpr h]
+
+/-- At a node the interpolant is the stored sample (so target centres that fall on source
+centres copy values, as the lattice rotation of C12 does). -/
+theorem trilinear_node (g0 g1 g2 : Nat → Rat) (m0 m1 m2 : Nat)
+    (hs0 : ∀ j, j ≤ m0 → g0 j < g0 (j + 1)) (hs1 : ∀ j, j ≤ m1 → g1 j < g1 (j + 1))
+    (hs2 : ∀ j, j ≤ m2 → g2 j < g2 (j + 1))
+    (V : Nat → Nat → Nat → Rat) (i j k : Nat) (hi : i ≤ m0) (hj : j ≤ m1) (hk : k ≤ m2)
+    (p : V3) (hx : p.x = g0 i) (hy : p.y = g1 j) (hz : p.z = g2 k) :
+    trilin g0 g1 g2 m0 m1 m2 V p = V i j k := by
+  have b : ∀ (g : Nat → Rat) (m : Nat), (∀ j, j ≤ m → g j < g (j + 1)) → ∀ i, i ≤ m → inBounds g m (g i) = true := by
+    intro g m hs i hi
+    unfold inBounds
+    have h1 : g 0 ≤ g i := by
+      by_cases e : i = 0
+      · subst e; exact le_refl _
+      · exact (mono_of_step g m hs 0 i (by omega) (by omega)).le
+    have h2 : g i ≤ g (m + 1) := (mono_of_step g m hs i (m + 1) (by omega) (by omega)).le
+    simp [h1, h2]
+  unfold trilin
+  rw [locate_some _ _ _ _ _ _ p (by rw [hx]; exact b g0 m0 hs0 i hi) (by rw [hy]; exact b g1 m1 hs1 j hj)
+    (by rw [hz]; exact b g2 m2 hs2 k hk)]
+  rw [hx, hy, hz, findIdx_at_node g0 m0 hs0 i hi, findIdx_at_node g1 m1 hs1 j hj, findIdx_at_node g2 m2 hs2 k hk]
+  have f0 : ∀ (g : Nat → Rat) (i : Nat), frac g i (g i) = 0 := by intro g i; unfold frac; simp
+  rw [f0, f0, f0]
+  simp only [interpAt]
+  rw [sum8_zero]
+  rfl
+
+/-- non-vacuity: a strictly increasing grid with a padded layer, a point inside it -/
+example : (∀ j, j ≤ 2 → (fun k : Nat => (k : Rat) * 3) j < (fun k : Nat => (k : Rat) * 3) (j + 1)) ∧
+    inBounds (fun k : Nat => (k : Rat) * 3) 2 (7/2) = true := by
+  constructor
+  · intro j _; simp only; push_cast; linarith
+  · unfold inBounds; norm_num
+
+/-! ## the stored values (`_map_and_interpolate` + vector rotation) -/
+
+/-- position handed to the interpolator for target cell `idx`, as an absolute coordinate -/
+theorem backPos_spec (f : Fld) (R : M3) (hR : R.IsRot) (nm : Mesh) (idx : List Nat) :
+    R.apply (backPos f R nm idx) = (V3.ofList (nm.centre idx)).sub (centreV f.mesh) := by
+  unfold backPos
+  exact hR.apply_tr_apply _
+
+/-- **rot_general.** Every stored value is the rotation (through the component ↔ axis
+permutation) applied to the multilinear interpolant of the ORIGINAL field at the back-rotated
+cell centre: rotate-then-interpolate (the code) equals interpolate-then-rotate (the property). -/
+theorem rot_general (f : Fld) (hf : WF f) (R : M3) (n? : Option (List Nat)) (g : Fld)
+    (h : rotateOnce f R n? = .ok g) :
+    ∃ ord, ordFor f = .ok ord ∧
+      ∀ idx, g.data.get idx = rotVal f.nvdim R ord (origAt f (backPos f R g.mesh idx)) := by
+  obtain ⟨reg, nm, ord, _, _, ho, hg⟩ := rotateOnce_ok_inv f R n? g h
+  subst hg
+  refine ⟨ord, ho, ?_⟩
+  intro idx
+  rw [rotated_data]
+  apply valuesAt_eq_rot_origAt
+  rcases hf.2 with h1 | ⟨h3, hl⟩
+  · exact Or.inl h1
+  · right
+    refine ⟨h3, ?_⟩
+    intro a ha
+    have := ordFor_lt f ord ho (by omega) a ha
+    omega
+
+/-- non-vacuity: a scalar field and a vector field with permuted mapping are rotated -/
+example : WF exF ∧ rotateOnce exF exR (some [5, 5, 2]) = .ok (rotated exF exR [] exNM) := ⟨exWF, exRot⟩
+example : WF exV ∧ rotateOnce exV exR (some [5, 5, 2]) = .ok (rotated exV exR [1, 0, 2] exNM) := ⟨exWFV, exRotV⟩
+
+/-- **rot_general, interior form.** If the back-rotated centre lies between the centres of
+cells `k` and `k+1` on every axis, the interpolant is the eight-cell trilinear formula with
+weights from the normalised offsets — "the linear interpolation of the original at that
+position". -/
+theorem rot_interpolates_cells (f : Fld) (hf : WF f) (R : M3) (n? : Option (List Nat)) (g : Fld)
+    (h : rotateOnce f R n? = .ok g) (idx : List Nat) (k0 k1 k2 : Nat)
+    (h0 : Between f.mesh 0 k0 (backPos f R g.mesh idx).x) (h1 : Between f.mesh 1 k1 (backPos f R g.mesh idx).y)
+    (h2 : Between f.mesh 2 k2 (backPos f R g.mesh idx).z) :
+    ∃ ord, ordFor f = .ok ord ∧
+      g.data.get idx = rotVal f.nvdim R ord (tab f.nvdim fun c =>
+        cellInterp f c k0 k1 k2
+          (((backPos f R g.mesh idx).x - centreRel f.mesh 0 k0) / f.mesh.cellAt 0)
+          (((backPos f R g.mesh idx).y - centreRel f.mesh 1 k1) / f.mesh.cellAt 1)
+          (((backPos f R g.mesh idx).z - centreRel f.mesh 2 k2) / f.mesh.cellAt 2)) := by
+  obtain ⟨ord, ho, hv⟩ := rot_general f hf R n? g h
+  refine ⟨ord, ho, ?_⟩
+  rw [hv idx]
+  congr 1
+  apply eq_tab_of_getD _ _ _ 0 (origAt_length f _)
+  intro c hc
+  exact origAt_between f hf.1 _ k0 k1 k2 h0 h1 h2 c hc
+
+example : Between exF.mesh 0 1 (backPos exF exR exNM [2, 2, 0]).x ∧ Between exF.mesh 1 1 (backPos exF exR exNM [2, 2, 0]).y ∧
+    Between exF.mesh 2 0 (backPos exF exR exNM [2, 2, 0]).z := by unfold Between; decide +kernel
+
+/-- a back-rotated centre at least one cell inside the original region (the property's
+hypothesis) lies between two neighbouring cell centres on that axis -/
+theorem one_cell_inside_between (m : Mesh) (a : Nat) (h : AxOk m a) (x : Rat)
+    (h1 : m.region.lo a + m.cellAt a ≤ x + centreAt m a) (h2 : x + centreAt m a ≤ m.region.hi a - m.cellAt a) :
+    ∃ k, Between m a k x :=
+  between_of_deep m a h x (deep_of_one_cell_inside m a h x h1 h2)
+
+/-- **rot_linear_scalar** (and its vector form). If component `c` of the original data is an
+affine function of position, the interpolant of that component at a back-rotated centre at
+least half a cell inside is that affine function of the back-rotated position; for a scalar
+field this is the stored value: linear scalar fields are reproduced exactly. -/
+theorem rot_linear_scalar (f : Fld) (hf : WF f) (h1 : f.nvdim = 1) (α β0 β1 β2 : Rat)
+    (hdata : ∀ i j k, i < f.mesh.nAt 0 → j < f.mesh.nAt 1 → k < f.mesh.nAt 2 →
+      f.data.get [i, j, k] = [α + β0 * centreAbs f.mesh 0 i + β1 * centreAbs f.mesh 1 j + β2 * centreAbs f.mesh 2 k])
+    (R : M3) (n? : Option (List Nat)) (g : Fld) (h : rotateOnce f R n? = .ok g) (idx : List Nat)
+    (d0 : Deep f.mesh 0 (backPos f R g.mesh idx).x) (d1 : Deep f.mesh 1 (backPos f R g.mesh idx).y)
+    (d2 : Deep f.mesh 2 (backPos f R g.mesh idx).z) :
+    g.data.get idx = [α + β0 * ((backPos f R g.mesh idx).x + centreAt f.mesh 0)
+      + β1 * ((backPos f R g.mesh idx).y + centreAt f.mesh 1) + β2 * ((backPos f R g.mesh idx).z + centreAt f.mesh 2)] := by
+  obtain ⟨ord, _, hv⟩ := rot_general f hf R n? g h
+  rw [hv idx]
+  unfold rotVal
+  rw [if_pos h1]
+  have hl := origAt_length f (backPos f R g.mesh idx)
+  rw [h1] at hl
+  have hc := origAt_affine f hf.1 0 (by omega) α β0 β1 β2
+    (by intro i j k hi hj hk; rw [hdata i j k hi hj hk]; rfl) _ d0 d1 d2
+  match hO : origAt f (backPos f R g.mesh idx), hl with
+  | [v], _ =>
+    rw [hO] at hc
+    simp only [List.getD_cons_zero] at hc
+    rw [hc]
+
+/-- instance: `1 + 2x − 3y + 5z` rotated about z; the target cell at the common centre reads
+`1 + 2·2 − 3·2 + 5·½ = 3/2` -/
+example : (rotated exF exR [] exNM).data.get [2, 2, 0] = [3/2] := by
+  have h := rot_linear_scalar exF exWF rfl 1 2 (-3) 5 (by intro i j k _ _ _; rfl) exR (some [5, 5, 2]) _ exRot [2, 2, 0]
+    (by unfold Deep; decide +kernel) (by unfold Deep; decide +kernel) (by unfold Deep; decide +kernel)
+  rw [h]
+  decide +kernel
+
+/-- affine vector fields: the stored vector is the rotation of the affine function's value at
+the back-rotated position (same hypotheses per component) -/
+theorem rot_affine_vector (f : Fld) (hf : WF f) (α β0 β1 β2 : Nat → Rat)
+    (hdata : ∀ c, c < f.nvdim → ∀ i j k, i < f.mesh.nAt 0 → j < f.mesh.nAt 1 → k < f.mesh.nAt 2 →
+      (f.data.get [i, j, k]).getD c 0
+        = α c + β0 c * centreAbs f.mesh 0 i + β1 c * centreAbs f.mesh 1 j + β2 c * centreAbs f.mesh 2 k)
+    (R : M3) (n? : Option (List Nat)) (g : Fld) (h : rotateOnce f R n? = .ok g) (idx : List Nat)
+    (d0 : Deep f.mesh 0 (backPos f R g.mesh idx).x) (d1 : Deep f.mesh 1 (backPos f R g.mesh idx).y)
+    (d2 : Deep f.mesh 2 (backPos f R g.mesh idx).z) :
+    ∃ ord, ordFor f = .ok ord ∧
+      g.data.get idx = rotVal f.nvdim R ord (tab f.nvdim fun c =>
+        α c + β0 c * ((backPos f R g.mesh idx).x + centreAt f.mesh 0)
+          + β1 c * ((backPos f R g.mesh idx).y + centreAt f.mesh 1) + β2 c * ((backPos f R g.mesh idx).z + centreAt f.mesh 2)) := by
+  obtain ⟨ord, ho, hv⟩ := rot_general f hf R n? g h
+  refine ⟨ord, ho, ?_⟩
+  rw [hv idx]
+  congr 1
+  apply eq_tab_of_getD _ _ _ 0 (origAt_length f _)
+  intro c hc
+  exact origAt_affine f hf.1 c hc (α c) (β0 c) (β1 c) (β2 c) (hdata c hc) _ d0 d1 d2
+
+/-- **rot_uniform.** A uniform field `v` becomes the uniform field `Q·v` (through the
+permutation) at every target cell whose back-rotated centre passes the bounds test — in
+particular everywhere at least one cell inside. -/
+theorem rot_uniform (f : Fld) (hf : WF f) (v : List Rat) (hvl : v.length = f.nvdim)
+    (hdata : ∀ i j k, i < f.mesh.nAt 0 → j < f.mesh.nAt 1 → k < f.mesh.nAt 2 → f.data.get [i, j, k] = v)
+    (R : M3) (n? : Option (List Nat)) (g : Fld) (h : rotateOnce f R n? = .ok g) (idx : List Nat)
+    (hin : InPad f (backPos f R g.mesh idx)) :
+    ∃ ord, ordFor f = .ok ord ∧ g.data.get idx = rotVal f.nvdim R ord v := by
+  obtain ⟨ord, ho, hv⟩ := rot_general f hf R n? g h
+  refine ⟨ord, ho, ?_⟩
+  rw [hv idx]
+  congr 1
+  have : v = tab f.nvdim fun c => v.getD c 0 := eq_tab_of_getD v _ _ 0 hvl (fun _ _ => rfl)
+  rw [this]
+  apply eq_tab_of_getD _ _ _ 0 (origAt_length f _)
+  intro c hc
+  exact origAt_uniform f hf.1 c hc (v.getD c 0) (by intro i j k hi hj hk; rw [hdata i j k hi hj hk]) _ hin
+
+/-- instance: the uniform field `(7, −2, 3)` with labels mapped to `(y, x, z)` becomes `Q·v`
+read through the same permutation -/
+example : (rotated exV exR [1, 0, 2] exNM).data.get [2, 2, 0] = [13/5, -34/5, 3] := by
+  obtain ⟨ord, ho, h⟩ := rot_uniform exV exWFV [7, -2, 3] rfl (by intro i j k _ _ _; rfl) exR (some [5, 5, 2]) _ exRotV [2, 2, 0]
+    (by unfold InPad; decide +kernel)
+  rw [exOrdV] at ho
+  injection ho with ho
+  subst ho
+  rw [h]
+  decide +kernel
+
+/-- **rot_outside_zero.** A target cell whose back-rotated centre lies outside the original
+region (by more than the `1e-9`-cell padding, on some axis) stores zero in every component. -/
+theorem rot_outside_zero (f : Fld) (R : M3) (n? : Option (List Nat)) (g : Fld)
+    (h : rotateOnce f R n? = .ok g) (idx : List Nat) (a : Nat) (ha : a < 3)
+    (hout : (backPos f R g.mesh idx).get a + centreAt f.mesh a < f.mesh.region.lo a - f.mesh.cellAt a * tolI ∨
+            f.mesh.region.hi a + f.mesh.cellAt a * tolI < (backPos f R g.mesh idx).get a + centreAt f.mesh a) :
+    g.data.get idx = tab f.nvdim fun _ => 0 := by
+  obtain ⟨reg, nm, ord, _, _, _, hg⟩ := rotateOnce_ok_inv f R n? g h
+  subst hg
+  rw [rotated_data]
+  exact valuesAt_outside f R ord _ (outside_not_inPad f _ a ha hout)
+
+/-- instance: the corner cell of the bounding box looks back at a point outside the original -/
+example : (backPos exF exR exNM [0, 0, 0]).get 0 + centreAt exF.mesh 0 < exF.mesh.region.lo 0 - exF.mesh.cellAt 0 * tolI := by
+  decide +kernel
+example : (rotated exF exR [] exNM).data.get [0, 0, 0] = [0] :=
+  rot_outside_zero exF exR (some [5, 5, 2]) _ exRot [0, 0, 0] 0 (by omega) (Or.inl (by decide +kernel))
+
+/-- geometry and metadata of the stored field: bounding-box region, the requested cell
+counts, everything valid, component count / labels / mapping of the original, no unit -/
+theorem rot_metadata (f : Fld) (R : M3) (n : List Nat) (g : Fld) (h : rotateOnce f R (some n) = .ok g) :
+    newRegion f R = .ok g.mesh.region ∧ g.mesh.n = n ∧ g.mesh.subs = [] ∧ g.data.shape = n ∧ g.valid.get = (fun _ => true) ∧
+    g.nvdim = f.nvdim ∧ g.vdims = f.vdims ∧ g.vmap = f.vmap ∧ g.unit = none := by
+  obtain ⟨reg, nm, ord, hr, hm, _, hg⟩ := rotateOnce_ok_inv f R (some n) g h
+  subst hg
+  obtain ⟨e1, e2, _, _, e5⟩ := mkN?_ok_inv reg _ nm hm
+  simp only [Option.getD_some] at e2
+  refine ⟨by rw [hr]; simp [rotated, e1], ?_, ?_, ?_, rfl, rfl, rfl, rfl, rfl⟩
+  · exact e2
+  · exact e5
+  · exact e2
+
+/-! ## the state machine: composition, clear -/
+
+/-- **accumulated rotation.** After ANY history of `rotate` / `clear_rotation` calls (failed
+calls included) the accumulated rotation is the ordered matrix product — later rotations on
+the left — of the rotations issued since the last clear, and the original field is untouched. -/
+theorem accumulated_rotation (f : Fld) (s0 : Rotator) (h0 : init? f = .ok s0) (ops : List Op) :
+    (run s0 ops).rot = prodL (seg [] ops) ∧ (run s0 ops).orig = f := by
+  have hs := init?_ok_inv f s0 h0
+  subst hs
+  exact ⟨run_rot _ [] rfl ops, run_orig _ ops⟩
+
+/-- **rot_compose.** `rotate Q₁; rotate Q₂` gives the same accumulated rotation, the same
+success/failure and (on success) the same field as the single call `rotate (Q₂·Q₁)` with the
+same `n` — whatever the first call's `n` was and whether or not it succeeded: the second
+rotation restarts from the original field. -/
+theorem rot_compose (s : Rotator) (Q1 Q2 : M3) (n1 n : Option (List Nat)) :
+    (step (step s (.rotate Q1 n1)).1 (.rotate Q2 n)).1.rot = (step s (.rotate (Q2.mul Q1) n)).1.rot ∧
+    (step (step s (.rotate Q1 n1)).1 (.rotate Q2 n)).2 = (step s (.rotate (Q2.mul Q1) n)).2 ∧
+    ((step s (.rotate (Q2.mul Q1) n)).2 = none →
+      (step (step s (.rotate Q1 n1)).1 (.rotate Q2 n)).1.cur = (step s (.rotate (Q2.mul Q1) n)).1.cur) := by
+  have ho : (step s (.rotate Q1 n1)).1.orig = s.orig := step_orig s _
+  have hr : (step s (.rotate Q1 n1)).1.rot = Q1.mul s.rot := step_rotate_rot s Q1 n1
+  have hm : Q2.mul (Q1.mul s.rot) = (Q2.mul Q1).mul s.rot := (M3.mul_assoc _ _ _).symm
+  cases hres : rotateOnce s.orig ((Q2.mul Q1).mul s.rot) n with
+  | ok g =>
+    have h2 : rotateOnce (step s (.rotate Q1 n1)).1.orig (Q2.mul (step s (.rotate Q1 n1)).1.rot) n = .ok g := by
+      rw [ho, hr, hm]; exact hres
+    rw [step_rotate_ok _ Q2 n g h2, step_rotate_ok s _ n g hres, hr, hm]
+    exact ⟨rfl, rfl, fun _ => rfl⟩
+  | error e =>
+    have h2 : rotateOnce (step s (.rotate Q1 n1)).1.orig (Q2.mul (step s (.rotate Q1 n1)).1.rot) n = .error e := by
+      rw [ho, hr, hm]; exact hres
+    rw [step_rotate_err _ Q2 n e h2, step_rotate_err s _ n e hres, hr, hm]
+    exact ⟨rfl, rfl, fun h => by cases h⟩
+
+/-- **history = single rotation.** After any history `ops`, a further `rotate Q n` leaves the
+rotator in the state a FRESH rotator reaches by the single rotation with the ordered product
+`Q · (Q_k ⋯ Q_1)` of the rotations since the last clear, applied to the original field: same
+accumulated matrix, same field on success; on failure the current field is kept. -/
+theorem history_eq_single (f : Fld) (s0 : Rotator) (h0 : init? f = .ok s0) (ops : List Op) (Q : M3)
+    (n? : Option (List Nat)) :
+    (run s0 (ops ++ [.rotate Q n?])).rot = Q.mul (prodL (seg [] ops)) ∧
+    (∀ g, rotateOnce f (Q.mul (prodL (seg [] ops))) n? = .ok g → (run s0 (ops ++ [.rotate Q n?])).cur = g) ∧
+    (∀ e, rotateOnce f (Q.mul (prodL (seg [] ops))) n? = .error e →
+      (run s0 (ops ++ [.rotate Q n?])).cur = (run s0 ops).cur) := by
+  obtain ⟨hr, ho⟩ := accumulated_rotation f s0 h0 ops
+  rw [run_append]
+  simp only [run]
+  refine ⟨by rw [step_rotate_rot, hr], ?_, ?_⟩
+  · intro g hg
+    rw [step_rotate_ok _ Q n? g (by rw [ho, hr]; exact hg)]
+  · intro e he
+    rw [step_rotate_err _ Q n? e (by rw [ho, hr]; exact he)]
+
+/-- **rot_clear.** `clear_rotation` after any history restores the original field and the
+identity rotation; a fresh rotator shows the original field. -/
+theorem rot_clear (f : Fld) (s0 : Rotator) (h0 : init? f = .ok s0) (ops : List Op) :
+    s0.cur = f ∧ (run s0 (ops ++ [.clear])).cur = f ∧ (run s0 (ops ++ [.clear])).rot = M3.one := by
+  obtain ⟨_, ho⟩ := accumulated_rotation f s0 h0 ops
+  have hs := init?_ok_inv f s0 h0
+  refine ⟨by rw [hs], ?_, ?_⟩
+  · rw [run_append]; simp only [run, step]; exact ho
+  · rw [run_append]; simp only [run, step]
+
+/-- the accumulated matrix stays a proper rotation along any history of proper rotations -/
+theorem accumulated_is_rotation (s : Rotator) (hs : s.rot.IsRot) (ops : List Op)
+    (hops : ∀ Q n, Op.rotate Q n ∈ ops → Q.IsRot) : (run s ops).rot.IsRot := by
+  induction ops generalizing s with
+  | nil => exact hs
+  | cons op ops ih =>
+    simp only [run]
+    apply ih
+    · cases op with
+      | rotate Q n => rw [step_rotate_rot]; exact (hops Q n (by simp)).mul hs
+      | clear => exact M3.isRot_one
+    · intro Q n hm; exact hops Q n (by simp [hm])
+
+/-- instance: rotate, clear, rotate twice — the accumulated matrix is the product of the last two -/
+example : ∃ s0, init? exF = .ok s0 ∧
+    (run s0 [.rotate exR2 none, .clear, .rotate exR2 (some [3, 3, 3]), .rotate exR none]).rot = exR.mul exR2 := by
+  obtain ⟨s0, h0⟩ := isOk_sound (init? exF) (by decide +kernel)
+  refine ⟨s0, h0, ?_⟩
+  rw [(accumulated_rotation exF s0 h0 _).1]
+  decide +kernel
+
+/-! ## refusals -/
+
+/-- **rot_refusals.** The constructor refuses fields that are neither scalar nor 3-vector,
+meshes that are not three-dimensional, and vector fields with a component label that has no
+spatial axis (missing from the mapping, or mapped to something that is not an axis). -/
+theorem rot_refusals (f : Fld) :
+    (f.nvdim ≠ 1 → f.nvdim ≠ 3 → init? f = .error .value) ∧
+    (f.mesh.region.ndim ≠ 3 → init? f = .error .value) ∧
+    (f.nvdim = 3 → ∀ v, v ∈ f.vdims.getD [] →
+      (Fld.lookup f.vmap v = none ∨ ∃ d, Fld.lookup f.vmap v = some d ∧ f.mesh.region.dims.contains d = false) →
+      init? f = .error .value) := by
+  refine ⟨?_, ?_, ?_⟩
+  · intro h1 h3
+    unfold init?
+    rw [if_pos ⟨h1, h3⟩]
+  · intro hn
+    unfold init?
+    split
+    · rfl
+    · rfl
+  · intro h3 v hv hbad
+    unfold init?
+    rw [if_neg (by omega)]
+    split
+    · rfl
+    · rw [if_pos]
+      simp only [Bool.and_eq_true, decide_eq_true_eq, Bool.not_eq_true']
+      refine ⟨by omega, ?_⟩
+      rw [List.all_eq_false]
+      refine ⟨v, hv, ?_⟩
+      rcases hbad with hb | ⟨d, hd, hc⟩
+      · rw [hb]; simp
+      · rw [hd]
+        simp only [Bool.not_eq_true] at hc ⊢
+        exact hc
+
+/-- A vector field with a spatial axis no component is mapped to (e.g. a non-injective
+mapping, which the constructor lets through) is refused by every `rotate`: the call fails,
+the current field stays what it was. -/
+theorem unmapped_axis_refused (s : Rotator) (Q : M3) (n? : Option (List Nat)) (h1 : s.orig.nvdim ≠ 1)
+    (a : Nat) (ha : a < 3) (hu : ordAt s.orig a = none) :
+    (step s (.rotate Q n?)).2 ≠ none ∧ (step s (.rotate Q n?)).1.cur = s.cur := by
+  have hord : ∃ e, ordFor s.orig = .error e := by
+    unfold ordFor
+    rw [if_neg h1]
+    have : a = 0 ∨ a = 1 ∨ a = 2 := by omega
+    rcases this with e | e | e <;> subst e <;> rw [hu]
+    · exact ⟨_, rfl⟩
+    · cases ordAt s.orig 0 <;> exact ⟨_, rfl⟩
+    · cases ordAt s.orig 0 <;> cases ordAt s.orig 1 <;> exact ⟨_, rfl⟩
+  obtain ⟨e, he⟩ := hord
+  have hro : ∃ e', rotateOnce s.orig (Q.mul s.rot) n? = .error e' := by
+    unfold rotateOnce
+    cases newRegion s.orig (Q.mul s.rot) with
+    | error e1 => exact ⟨e1, rfl⟩
+    | ok reg =>
+      simp only
+      cases Mesh.mkN? reg (n?.getD (autoN s.orig (Q.mul s.rot) reg)) with
+      | error e2 => exact ⟨e2, rfl⟩
+      | ok nm => simp only [he]; exact ⟨e, rfl⟩
+  obtain ⟨e', he'⟩ := hro
+  rw [step_rotate_err s Q n? e' he']
+  exact ⟨by simp, rfl⟩
+
+/-- instances: a 2-component field is refused; with the non-injective mapping
+`p ↦ x, q ↦ x, r ↦ z` no component belongs to the `y` axis -/
+example : init? { exF with nvdim := 2 } = .error .value := (rot_refusals _).1 (by decide) (by decide)
+example : ordAt { exV with vmap := [("p", "x"), ("q", "x"), ("r", "z")] } 1 = none := by decide +kernel
+example : isOk (init? exV) = true ∧ isOk (init? { exV with vmap := [("p", "x"), ("q", "x"), ("r", "z")] }) = true := by
+  decide +kernel
+
+/-! ## automatic cell counts (`_calculate_new_n`) -/
+
+/-- **roundCbrt_spec.** The integer the model returns for the rounded cube root is the
+nearest integer to the real cube root: `(k − ½)³ ≤ q < (k + ½)³`, and it is the only one. -/
+theorem roundCbrt_spec (q : Rat) (hq : 0 ≤ q) :
+    ((1 ≤ roundCbrt q → cube ((roundCbrt q : Rat) - 1/2) ≤ q) ∧ q < cube ((roundCbrt q : Rat) + 1/2)) ∧
+    (∀ k : Nat, (1 ≤ k → cube ((k : Rat) - 1/2) ≤ q) → q < cube ((k : Rat) + 1/2) → roundCbrt q = k) :=
+  ⟨roundCbrt_bounds q hq, fun k h1 h2 => roundCbrt_unique q hq k h1 h2⟩
+
+/-- perfect cubes: a rotation that maps the lattice onto itself keeps the cell counts -/
+theorem roundCbrt_cube (k : Nat) : roundCbrt (cube (k : Rat)) = k := by
+  have hk : (0 : Rat) ≤ (k : Rat) := Nat.cast_nonneg k
+  apply roundCbrt_unique _ (by unfold cube; positivity) k
+  · intro h1
+    have : (1 : Rat) ≤ (k : Rat) := by exact_mod_cast h1
+    exact cube_mono _ _ (by linarith) (by linarith)
+  · exact cube_strict _ _ hk (by linarith)
+
+example : roundCbrt (cube 4) = 4 := by
+  have := roundCbrt_cube 4
+  simpa using this
+
 end DFV.C18
